@@ -84,7 +84,7 @@ pub fn run(prop: &'static str, tier: &str, seed: u64) -> i32 {
         }
     }
     if prop == "C05" {
-        // head lookups while the newest frames of the topic are being removed (explicitly and by head:N eviction)
+        // head lookups while the newest frames of the topic are being removed
         let rounds = if tier == "thorough" { 240u64 } else { 12 };
         let per = 6u64;
         let batches: Vec<Vec<serde_json::Value>> = run_cases((rounds / per) as usize, 4, move |b| crate::checks_e2::run_worker("c05race", seed ^ 0xc05, b as u64 * per, per));
